@@ -104,7 +104,12 @@ def generate_partitioned(r, opts):
 
 # ================================================================================================ execution
 def read_value(node, h):
-    return vm.loads(node.dump(h))
+    raw = node.dump(h)
+    if len(raw) > 400000:
+        # an operation (combinations, rpad to a large target) blew a small array up: decoding and comparing it in
+        # Python would take longer than the per-run timeout allows - outside the explored size bound, no verdict
+        raise Discard("result too large for the explored size bound")
+    return vm.loads(raw)
 
 
 def outcome(node, fn):
@@ -341,6 +346,19 @@ def execute(node, case, rec, opts):
         rec.probe("final_reads_compared")
 
 
+def _has_bytes(v):
+    if isinstance(v, bytes):
+        return True
+    if isinstance(v, list):
+        return any(_has_bytes(x) for x in v)
+    if isinstance(v, tuple):
+        if v and v[0] == "rec":
+            return any(_has_bytes(x) for _, x in v[2])
+        if v and v[0] == "tup":
+            return any(_has_bytes(x) for x in v[1])
+    return False
+
+
 def same_outcome(e, l):
     """eager outcome vs lazy outcome: equal values, or both fail (a lazy array may defer its error to the read)"""
     if e[0] == "value":
@@ -459,8 +477,27 @@ def execute_partitioned(node, case, rec, opts):
                 if len(set(stops)) != len(stops):
                     rec.fault("empty_partition")
             else:
-                txt = node.part_text(cur, 1)
+                try:
+                    txt = node.part_text(cur, 1)
+                except NodeError as x:
+                    if x.cls in ORDINARY and ("Complex numbers can't be converted to JSON" in x.msg or
+                                              "cannot convert Numpy format" in x.msg):
+                        # the dtype has no JSON form (complex without complex_record_fields, datetimes): the
+                        # concatenated array is refused in the same way
+                        rec.probe("tojson_refused_for_dtype")
+                        continue
+                    raise
                 rec.ev(t, "tojson", len(txt))
+                from ..models import json_ref as jr
+                from .jsonio import json_view
+                wantj, unwritable = json_view(cur_want, {"nan": None, "inf": None, "minf": None})
+                pp = jr.parse_stream(txt, uint64_ok=True)
+                if not unwritable and not _has_bytes(cur_want):
+                    if pp.status != "ok" or len(pp.docs) != 1 or not vm.same(pp.docs[0], wantj, numeric=True):
+                        raise Violation("transparency", "partitioned_tojson_differs",
+                                        {"event": ev, "expected": vm.to_jsonable(cur_want), "partitioned": txt[:300].decode("latin-1"),
+                                         "partition_info": node.part_text(cur, 2).decode()}, at=t)
+                    rec.probe("partitioned_tojson_compared")
         except NodeError as x:
             if x.cls not in ORDINARY:
                 raise Violation("robustness", "non_ordinary_exception", {"event": ev, "error": [x.cls, x.msg[:200]]}, at=t)
@@ -578,7 +615,7 @@ def tier_opts(tier):
     if tier == "thorough":
         return {"runs": 300000, "determinism_sample": 1024, "perturb_sample": 2000, "asan_runs": 60000,
                 "lazy_max_ops": 20, "layout_max_depth": 4, "run_timeout": 30.0, "shrink_per_class": 3, "mutants": True}
-    return {"asan_runs": 8000, "runs": 25000, "determinism_sample": 64, "perturb_sample": 300, "lazy_max_ops": 12, "layout_max_depth": 3,
+    return {"layout_exotic_dtypes": True, "asan_runs": 8000, "runs": 25000, "determinism_sample": 64, "perturb_sample": 300, "lazy_max_ops": 12, "layout_max_depth": 3,
             "run_timeout": 10.0, "shrink_per_class": 2}
 
 
